@@ -109,10 +109,21 @@ let flatten_wins (wins : sexp list) : sexp list =
       | L (A "w" :: _ :: obs) -> List.stable_sort (fun a b -> compare (rank a) (rank b)) obs
       | _ -> []) wins
 
-let impl_log (wins : sexp list) : ev list =
+let impl_log (keys_i : (int * key) list) (wins : sexp list) : ev list =
   let flat = flatten_wins wins in
   let ips = Hashtbl.create 8 in
   List.iter (fun x -> match x with L [A "sinit"; d; ip] -> Hashtbl.replace ips (atoi d) (atoi ip) | _ -> ()) flat;
+  (* a dial that never reached connection_init: the upstream has not seen the init payload; it is
+     the dialling subscriber's (the one whose (sub i) window shows the new upgrade request) *)
+  List.iter (fun w -> match w with
+      | L (A "w" :: L [A "sub"; i; _] :: obs) ->
+        List.iter (fun x -> match x with
+            | L [A "sdial"; d; _; _; _] when not (Hashtbl.mem ips (atoi d)) ->
+              (match List.assoc_opt (atoi i) keys_i with
+               | Some k -> let (_, _, _, ip) = ints_of_key k in Hashtbl.replace ips (atoi d) ip
+               | None -> ())
+            | _ -> ()) obs
+      | _ -> ()) wins;
   let ipof d = try Hashtbl.find ips d with Not_found -> 99 in
   List.concat_map (impl_ev ipof) flat
 
@@ -252,7 +263,7 @@ let handle (x : sexp) : (string * string) list =
                               (String.concat " " i) (String.concat " " m)) end
         | _ -> ()) wins;
     (* ---- spec checkers on the implementation's log ---- *)
-    let ilog = impl_log wins in
+    let ilog = impl_log keys_i wins in
     let model_log = List.rev !mlog in
     if mode = "sse" then begin
       if not (sse_routing_b ilog) then add "specfail" "routing/sse a stream's event reached another handler, was lost or duplicated"
@@ -260,29 +271,28 @@ let handle (x : sexp) : (string * string) list =
       if not (routing_b ilog) then add "specfail" "routing an upstream frame was not delivered to exactly its live subscription in order";
       if not (shared_b keys ilog) then add "specfail" "shared_iff_same_key a subscribe frame arrived on a connection dialled for another option tuple";
       if idle_mode <> 2 && not (drain_b ilog) then add "specfail" "conns_drain an acknowledged connection without live subscription is still open at quiescence";
-      if not (isolated_b keys ilog) then begin
-        (* attribute through the faithful model's ghost causes *)
-        let blamed = List.filter_map (fun e -> match e with
-            | ORet (j, Some (ECtx (k, _))) when k <> j -> Some (Printf.sprintf "sub=%d gets ctx error of dialler=%d" (ii j) (ii k))
-            | ORet (j, Some (EClosed CIdle)) | ORet (j, Some (EWrite CIdle)) -> Some (Printf.sprintf "sub=%d closed-by-idle" (ii j))
-            | OConnErr (j, CIdle) -> Some (Printf.sprintf "sub=%d connerr-by-idle" (ii j))
-            | OConnErr (j, CWriteCtx k) when k <> j -> Some (Printf.sprintf "sub=%d connerr-by-writectx-of=%d" (ii j) (ii k))
-            | _ -> None) model_log in
-        let cause = if !mism then "cause=unattributed(model-disagrees)"
-          else (match blamed with [] -> "cause=unattributed" | l -> "cause=model:" ^ String.concat ";" l) in
-        add "specfail" ("cancel_isolated a subscriber with a live ctx and a healthy upstream failed; " ^ cause)
-      end;
+      (* attribution through the faithful model's ghost causes *)
+      let blamed = List.filter_map (fun e -> match e with
+          | ORet (j, Some (ECtx (k, _))) when k <> j -> Some (Printf.sprintf "sub=%d gets ctx error of dialler=%d" (ii j) (ii k))
+          | ORet (j, Some (EClosed CIdle)) | ORet (j, Some (EWrite CIdle)) -> Some (Printf.sprintf "sub=%d closed-by-idle" (ii j))
+          | OConnErr (j, CIdle) -> Some (Printf.sprintf "sub=%d connerr-by-idle" (ii j))
+          | OConnErr (j, CWriteCtx k) when k <> j -> Some (Printf.sprintf "sub=%d connerr-by-writectx-of=%d" (ii j) (ii k))
+          | _ -> None) model_log in
+      let cause = if !mism then "cause=unattributed(model-disagrees)"
+        else (match blamed with [] -> "cause=unattributed" | l -> "cause=model:" ^ String.concat ";" l) in
+      if not (isolated_b keys ilog) then
+        add "specfail" ("cancel_isolated a subscriber with a live ctx and a healthy upstream failed; " ^ cause);
       (* differential form, fault-free schedules only: j fails with i present, not without *)
       let faultfree = not (List.exists (fun e -> match e with OReject _ | OInitFail _ | ODrop _ | OPing _ -> true | _ -> false) ilog) in
       (match rest with
        | [L (A "minus" :: ms)] when faultfree ->
          List.iter (fun m -> match m with
              | L [i; L (A "wins" :: mw)] ->
-               let mlog2 = impl_log mw in
+               let mlog2 = impl_log keys_i mw in
                List.iter (fun (j, _) ->
                    if j <> atoi i && failed_b (ni j) ilog && not (failed_b (ni j) mlog2)
                       && not (List.exists (fun e -> match e with OCancel c -> ii c = j | _ -> false) ilog) then
-                     add "specfail" (Printf.sprintf "cancel_isolated/diff sub=%d fails in the schedule and succeeds in the same schedule without sub=%d" j (atoi i)))
+                     add "specfail" (Printf.sprintf "cancel_isolated/diff sub=%d fails in the schedule and succeeds in the same schedule without sub=%d; %s" j (atoi i) cause))
                  keys_i
              | _ -> ()) ms
        | _ -> ())
